@@ -59,7 +59,9 @@ CutLengths == {0, 1, 16, 33}
 CutCases == {[h |-> h, req |-> [t |-> t, cookies |-> <<Cut(t, k)>>, neg |-> "ok"]] : h \in HalfOpenCounts, t \in Tuple, k \in CutLengths}
 \* how the h half-open IKE_SAs came about does not matter - they are counted as IKE_SAs: requests of distinct initiators, one request replayed h times,
 \* or one initiator SPI with a fresh nonce and KE value each time
-Fills == {"distinct", "replayed", "samespi"}
+\* ... or what remains after more of them were created and one went on to completion ("churn": the ones created under load came in with a cookie - they
+\* are half-open IKE_SAs like the others)
+Fills == {"distinct", "replayed", "samespi", "churn"}
 Cases == {[h |-> c.h, req |-> c.req, fill |-> f] : c \in {[h |-> h, req |-> r] : h \in HalfOpenCounts, r \in Request} \cup CutCases, f \in Fills}
 
 \* ------------------------------------------------------------------------------------------- the property, on the operator
